@@ -253,6 +253,15 @@ pub fn op_name(o: u16) -> String {
 pub struct TSt {
     pub d: Dg,
     pub agg: Agg,
+    /// every weight of the alphabet is multiplied by this power of two (1.0 = as written); unit
+    /// inserts become insert_weighted(v, wscale)
+    pub wscale: f64,
+}
+
+/// weight scales for the extreme-magnitude trees: exact powers of two, far enough from the
+/// subnormal / overflow ends that every product and difference of the alphabet stays normal
+pub fn wscales() -> [f64; 2] {
+    [f64::from_bits((1023 - 900) << 52), f64::from_bits((1023 + 900) << 52)] // 2^-900, 2^900
 }
 
 pub fn snapshot(d: &Dg) -> Vec<u64> {
@@ -272,11 +281,16 @@ pub fn apply(st: &mut TSt, o: u16, check16: bool) -> Result<Option<(String, Stri
     let o = o as usize;
     let r = mccore::panics::catch(|| {
         if o < 5 {
-            st.d.insert(VALUES[o]);
-            st.agg.add(VALUES[o], 1.0);
+            if st.wscale == 1.0 {
+                st.d.insert(VALUES[o]);
+            } else {
+                st.d.insert_weighted(VALUES[o], st.wscale);
+            }
+            st.agg.add(VALUES[o], st.wscale);
             None
         } else if o < 5 + N_W {
             let (v, w) = WEIGHTED[o - 5];
+            let w = w * st.wscale;
             let before = if w == 0.0 && check16 { Some(snapshot(&st.d)) } else { None };
             st.d.insert_weighted(v, w);
             st.agg.add(v, w);
@@ -346,7 +360,11 @@ pub struct TreeOut {
 
 /// mode 15 = C15 oracle at every node, mode 16 = C16 oracle at every node
 pub fn tree(kind: usize, delta: f64, backlog: usize, depth: usize, mode: u32, nq: usize) -> TreeOut {
-    let init = TSt { d: Dg::new(kind, delta, backlog), agg: Agg::default() };
+    tree_scaled(kind, delta, backlog, depth, mode, nq, 1.0)
+}
+
+pub fn tree_scaled(kind: usize, delta: f64, backlog: usize, depth: usize, mode: u32, nq: usize, wscale: f64) -> TreeOut {
+    let init = TSt { d: Dg::new(kind, delta, backlog), agg: Agg::default(), wscale };
     let mut out = TreeOut { nodes: 0, evals: 0, viols: vec![] };
     // iterative deepening so that the first counterexample is a shortest one
     for dep in 1..=depth {
